@@ -15,7 +15,7 @@ RULE = 'one case = one lattice configuration (<= k deviations from the base); no
 ASSUMPTIONS = ['tolerance 1e-11 of the summand magnitude', 'frequency invariance checked on unrestrained (all flags 1) flat isotropic panels, dense solver']
 RTOL = 1e-11
 SIG_MASS = 'C04:mass-coupling-term-has-sign-of-u-plus-z-wx'
-COORDS = {k: v for k, v in c02.COORDS.items() if k not in ('preload',)}
+COORDS = {k: v for k, v in c02.COORDS.items() if k not in ('preload', 'ortho')}
 COORDS['lam'] = ['iso', 'general', 'cross_sym', 'uni0']
 COORDS['offset'] = ['0', '+d', '-d']
 COORDS['mu'] = [1500.0, 1.0, 2.7e-9]
